@@ -102,12 +102,28 @@ fn cli_binding(ctx: &mut Ctx, p: &Prog) {
     for (how, res) in [("file", &r), ("stdin", &r2)] {
         if !res.ok() || res.out().trim_end_matches('\n') != expected.trim_end_matches('\n') {
             ctx.violation("listing/cli-differs-from-display", "`fml disassemble` does not print the program's listing",
-                json!({"input": how, "exit": res.code, "stdout": res.out().chars().take(400).collect::<String>(), "expected": expected.chars().take(400).collect::<String>(), "bytes_hex": codec::hex(&b)}));
+                json!({"input": how, "exit": res.code, "stdout": res.out().chars().take(400).collect::<String>(), "expected": expected.chars().take(400).collect::<String>(), "bytes": b.len(), "bytes_hex": codec::hex(&b[..b.len().min(600)])}));
         }
     }
 }
 
+/// every constant-pool size 0..=600 (every value of the file's first byte; files beyond the 8 KiB read
+/// buffer from n = 330 on) through `fml disassemble`, as a file and on stdin
+fn pool_size_sweep(ctx: &mut Ctx) {
+    ctx.stage("pool-size sweep through the command line (processes)");
+    for n in 0..=600usize {
+        if ctx.take().is_none() { continue }
+        let src = super::bcprops::sweep_program(n);
+        let bytes = match pipeline::compile_source(&src) { Ok(b) => b, Err(_) => continue };
+        let p = match codec::read(&bytes) { Ok(p) => p, Err(_) => continue };
+        ctx.count("programs", 1);
+        ctx.nontrivial(&n.to_le_bytes());
+        cli_binding(ctx, &p);
+    }
+}
+
 pub fn run(ctx: &mut Ctx) {
+    pool_size_sweep(ctx);
     let menu = bc::const_menu();
     let k = if ctx.quick() { 2 } else { 3 };
     ctx.stage(&format!("U-BC constant sequences (k<={}) and their neighbours", k));
